@@ -15,6 +15,7 @@ from gen import hostile as HG
 from gen import catalog as CAT
 from gen import cfmt as GC
 from gen import pyfmt as GP
+from gen import pybrace as GB
 
 LINE_RE = re.compile(r'\A[EWIP]: [^\n]*\Z')
 def _bad_class():
@@ -328,6 +329,12 @@ def model_streams(chk, rng):
             ps = GP.boundary_strings() + GP.context_strings() + [GP.gen_string(rng) if rng.random() < 0.7 else GP.mutate(rng, GP.gen_string(rng)) for _ in range(n)] + HG.PYFMT
             ps = [x for x in ps if x and len(x) < 3000]
             chk.stream('pipeline-pystring', ['pipeline pystring ' + hexs(x) for x in ps], [P.impl_string('python', x) for x in ps])
+            bs = GB.boundary_strings() + GB.fixed_singles() + [GB.gen_string(rng) if rng.random() < 0.6 else GB.mutate(rng, GB.gen_string(rng)) for _ in range(n)] + [GB.gen_clash(rng) for _ in range(n // 10)] + HG.BRACE
+            bs = [x for x in bs if x and len(x) < 3000]
+            chk.stream('pipeline-pybstring', ['pipeline pybstring ' + hexs(x) for x in bs], [P.impl_string('python-brace', x) for x in bs])
+            qs = [GB.gen_perl(rng) for _ in range(n // 2)] + [GB.mutate(rng, GB.gen_perl(rng)) for _ in range(n // 4)] + HG.PERL
+            qs = [x for x in qs if x and len(x) < 3000]
+            chk.stream('pipeline-perlstring', ['pipeline perlstring ' + hexs(x) for x in qs], [P.impl_string('perl-brace', x) for x in qs])
     except common.Infra:
         raise
     except Exception as exc:
